@@ -35,7 +35,7 @@ func init() {
 		Word32: true,
 		Level:  "exploration",
 		Rule: "E1 bounded-exhaustive enumeration, per width n in {1,2,4,8}: (split) every string of length ≤2 over all 256 byte values and of length ≤L over {00,01,7f,80,ff,a5,5a,'a'}: FromStr length and every word, Get at every index, ToStr∘FromStr; " +
-			"(pack) ToStr on every list of in-range words up to a width-dependent length (every partial-last-byte shape); (diff) FirstDiff on every ordered pair of strings of length ≤D over 6 bytes and of length ≤3 over {c3,a9,a8,'a'} and {e6,97,a5,a6} (well-formed 2- and 3-byte UTF-8 sequences differing in a continuation byte) × every from in [0, words+2] × every end in [-1, words+2]; (diff, far windows) the same pairs with from and/or end far beyond both strings: 2^31, 2^32, 2^60, 2^61, 2^62, 3·2^61 (each ±1), MaxInt-1, MaxInt - every from in [0, words+2] ∪ far × every far end, and every far from × every end in [-1, words+2]; (diff, long) FirstDiff on every ordered pair of 48 strings of 8..19 bytes (4 stem variants × 3 tails) and on single-byte flips of bases of EVERY length 1..40 at every byte position × every from × 7 ends; (big) strings of EVERY length 2..600 bytes and of every threshold length up to 2^16 (thorough 2^20) bytes: FromStr/ToStr/Get and FirstDiff against copies with one flipped byte; (lists) ToStrs on every list of ≤3 word lists over every partial-last-byte shape (lengths 0..2·(8/n)+1: elements that are not whole bytes), and on every list of ≤3 PREFIXES OF ONE word list (elements sharing memory: the same list twice, a list and its prefix); FromStrs/ToStrs element-wise (and the FromStrs elements once more after appending a byte to each: results must not alias each other) on every list of ≤3 strings over 4 strings, and on generated lists of every threshold size (round numbers ±1) from 1000 to 70000 strings. " +
+			"(pack) ToStr on every list of in-range words up to a width-dependent length (every partial-last-byte shape), and on one patterned list of EVERY length up to 2200 / 1100 / 600 / 300 words (widths 1 / 2 / 4 / 8) and of every threshold length up to 2^16 words with every partial-last-byte shape next to it; (diff) FirstDiff on every ordered pair of strings of length ≤D over 6 bytes and of length ≤3 over {c3,a9,a8,'a'} and {e6,97,a5,a6} (well-formed 2- and 3-byte UTF-8 sequences differing in a continuation byte) × every from in [0, words+2] × every end in [-1, words+2]; (diff, far windows) the same pairs with from and/or end far beyond both strings: 2^31, 2^32, 2^60, 2^61, 2^62, 3·2^61 (each ±1), MaxInt-1, MaxInt - every from in [0, words+2] ∪ far × every far end, and every far from × every end in [-1, words+2]; (diff, long) FirstDiff on every ordered pair of 48 strings of 8..19 bytes (4 stem variants × 3 tails) and on single-byte flips of bases of EVERY length 1..40 at every byte position × every from × 7 ends; (big) strings of EVERY length 2..600 bytes and of every threshold length up to 2^16 (thorough 2^20) bytes: FromStr/ToStr/Get and FirstDiff against copies with one flipped byte; (lists) ToStrs on every list of ≤3 word lists over every partial-last-byte shape (lengths 0..2·(8/n)+1: elements that are not whole bytes), and on every list of ≤3 PREFIXES OF ONE word list (elements sharing memory: the same list twice, a list and its prefix); FromStrs/ToStrs element-wise (and the FromStrs elements once more after appending a byte to each: results must not alias each other) on every list of ≤3 strings over 4 strings, and on generated lists of every threshold size (round numbers ±1) from 1000 to 70000 strings. " +
 			"Oracle: the string's '0'/'1' rendering cut into n-bit groups. A case is one call; non-trivial when the string/list is non-empty.",
 		Assumptions: []string{"from < 0 and end < -1 are outside the statement and not called; long strings over the full byte alphabet are not enumerated"},
 		Run:         c08Run,
@@ -91,13 +91,14 @@ func refWords(s string, n int) []byte {
 
 // refPack packs in-range words MSB-first, zero padding the last byte.
 func refPack(ws []byte, n int) string {
-	bits := ""
+	bb := make([]byte, 0, len(ws)*n+8) // the '0'/'1' rendering, built in linear time
 	for _, w := range ws {
-		bits += ref.BitString(uint64(w), n)
+		bb = append(bb, ref.BitString(uint64(w), n)...)
 	}
-	for len(bits)%8 != 0 {
-		bits += "0"
+	for len(bb)%8 != 0 {
+		bb = append(bb, '0')
 	}
+	bits := string(bb)
 	out := make([]byte, len(bits)/8)
 	for i := range out {
 		out[i] = byte(ref.BitsVal(bits[8*i : 8*i+8]))
@@ -245,6 +246,37 @@ func c08Run(c *mc.Ctx) {
 			})
 			c.Count(evals, nontriv)
 			c.Add("pack_cases", evals)
+		})
+	}
+	// (pack, length sweep) ToStr on a word list of EVERY length 0..2200 (width 1), 1100, 600, 300 (widths 2, 4,
+	// 8) - results of 0..275 bytes with every partial-last-byte shape at every byte count - and of every
+	// threshold length up to 2^16 words; the words follow a pattern that depends on position and length
+	for _, n := range c08Widths {
+		n := n
+		hi := map[int]int{1: 2200, 2: 1100, 4: 600, 8: 300}[n]
+		var lens []int
+		for l := maxLen[n] + 1; l <= hi; l++ {
+			lens = append(lens, l)
+		}
+		for _, l := range gen.ThresholdSizes(hi+1, 1<<16) {
+			for d := 0; d < 8/n; d++ { // and the partial-last-byte shapes next to every threshold
+				lens = append(lens, l+d)
+			}
+		}
+		c.Expect(int64(len(lens)))
+		c.Par(len(lens), func(li int) {
+			l := lens[li]
+			ws := make([]byte, l)
+			for i := range ws {
+				ws[i] = byte((i*7+l*3+i/9)^(i>>3)) & byte(1<<uint(n)-1)
+			}
+			want := refPack(ws, n)
+			got, p := bwToStr(n, ws)
+			if p != "" || got != want {
+				c.Fail(6<<50|int64(n)<<40|int64(li), "ToStr", "ToStr/length-sweep", c08Case{Width: n, Words: ws}, p+digest([]byte(got)), digest([]byte(want)))
+			}
+			c.Count(1, 1)
+			c.Add("pack_length_sweep_cases", 1)
 		})
 	}
 	c.ForceSample(map[string]interface{}{"fn": "ToStr", "width": 4, "words": []int{0xa, 0x5, 0xf}, "packed": fmt.Sprintf("%x", refPack([]byte{0xa, 0x5, 0xf}, 4))})
@@ -808,6 +840,9 @@ func c08Judge(kind string, cs c08Case) (got, want string) {
 		return p2 + fmt.Sprintf("%x", back), fmt.Sprintf("%x", a)
 	case "ToStr":
 		g, p := bwToStr(n, cs.Words)
+		if len(cs.Words) > 40 {
+			return p + digest([]byte(g)), digest([]byte(refPack(cs.Words, n)))
+		}
 		return p + fmt.Sprintf("%x", g), fmt.Sprintf("%x", refPack(cs.Words, n))
 	case "FirstDiff":
 		g, p := bwFirstDiff(n, a, b, cs.From, cs.End)
